@@ -99,14 +99,18 @@ def resetInternal (clearQueue : Bool) : SM Unit :=
 
 def abandonTransaction : SM Unit := resetInternal true
 
+/-- loop body of `_check_for_originating_id`: the last originating-id message wins -/
+def origStep (acc : Option Tid) (m : Msg) : Option Tid :=
+  match m with
+  | .orig sv sw qv qw => some (Tid.mk ⟨sv, sw⟩ ⟨qv, qw⟩)
+  | _ => acc
+
 /-- `_check_for_originating_id` (source.py:544-568) -/
 def checkForOriginatingId (msgs : Option (List Msg)) : Option Tid :=
   match msgs with
   | none => none
   | some l =>
-    let orig := l.foldl (fun acc m => match m with
-      | .orig sv sw qv qw => some (Tid.mk ⟨sv, sw⟩ ⟨qv, qw⟩)
-      | _ => acc) none
+    let orig := l.foldl origStep none
     let resp := l.any fun m => m == .proxyPutResp
     if !resp then orig else none
 
@@ -400,7 +404,7 @@ def transactionStart (env : Env) : SM Unit := do
       -- _get_next_transfer_seq_num
       let s ← get
       let next := s.prov.next
-      set { s with prov := { s.prov with next := (next + 1) % provWrap s.prov.bits } }
+      modify fun s => { s with prov := { s.prov with next := (s.prov.next + 1) % provWrap s.prov.bits } }
       if !(s.prov.bits = 8 || s.prov.bits = 16 || s.prov.bits = 32) then throw .valueError
       modP fun p => { p with conf := { p.conf with seq := ⟨next, s.prov.bits / 8⟩ } }
       -- _calculate_max_file_seg_len
@@ -417,16 +421,16 @@ def transactionStart (env : Env) : SM Unit := do
 def fsmAdvancementAfterPacketsWereSent : SM Unit := do
   let s ← get
   if s.queue.length > 0 then throw .unretrievedPdus
-  match s.step with
-  | .SENDING_METADATA => set { s with step := .SENDING_FILE_DATA }
+  else match s.step with
+  | .SENDING_METADATA => modify fun s => { s with step := .SENDING_FILE_DATA }
   | .RETRANSMITTING =>
     match s.stepBefore with
     | none => throw .assertionError
-    | some st => set { s with step := st }
+    | some st => modify fun s => { s with step := st }
   | .SENDING_FILE_DATA =>
     if s.p.progress = s.p.fileSize then
-      set { s with step := .SENDING_EOF, p := { s.p with condCodeEof := some ccNoError } }
-  | .SENDING_ACK_OF_FINISHED => set { s with step := .NOTICE_OF_COMPLETION }
+      modify fun s => { s with step := .SENDING_EOF, p := { s.p with condCodeEof := some ccNoError } }
+  | .SENDING_ACK_OF_FINISHED => modify fun s => { s with step := .NOTICE_OF_COMPLETION }
   | _ => pure ()
 
 /-! `_fsm_non_idle` (source.py:499-526) is a sequence of independent `if`s, some of which return
@@ -501,7 +505,7 @@ def putRequest (env : Env) (req : PutReq) : SM Bool := do
   let s ← get
   if s.state ≠ .idle then pure false
   else
-    set { s with putReq := some req }
+    modify fun s => { s with putReq := some req }
     if req.src.isSome && !Fs.exists' s.fs (req.src.getD "") then throw .sourceFileDoesNotExist
     else
       let rc := lookupRemote env.cfg.remotes req.destId.val
@@ -533,10 +537,10 @@ def cancelRequest (env : Env) (tid : Tid) : SM Bool := do
 def getNextPacket : SM (Option Pdu) := do
   let s ← get
   match s.queue with
-  | [] => return none
-  | pdu :: rest =>
-    set { s with queue := rest, numReady := s.numReady - 1 }
-    return some pdu
+  | [] => pure none
+  | pdu :: _ =>
+    modify fun s => { s with queue := s.queue.tail, numReady := s.numReady - 1 }
+    pure (some pdu)
 
 /-- `reset()` -/
 def reset : SM Unit := resetInternal true
